@@ -35,6 +35,19 @@ func main() {
 		if err != nil {
 			die(err)
 		}
+		// untyped constants of the whole package (a go statement may pass one declared in another file)
+		pkgConsts = map[string]bool{}
+		for _, f := range files {
+			b := filepath.Base(f)
+			if strings.HasSuffix(b, "_test.go") || strings.HasPrefix(b, "verif_") {
+				continue
+			}
+			if af, err := parser.ParseFile(token.NewFileSet(), f, nil, 0); err == nil {
+				for n := range untypedConsts(af) {
+					pkgConsts[n] = true
+				}
+			}
+		}
 		for _, f := range files {
 			b := filepath.Base(f)
 			if strings.HasSuffix(b, "_test.go") || strings.HasPrefix(b, "verif_") {
@@ -79,8 +92,10 @@ func untypedConsts(f *ast.File) map[string]bool {
 	return out
 }
 
+var pkgConsts = map[string]bool{}
+
 func rewriteGoStmts(f *ast.File) int {
-	consts := untypedConsts(f)
+	consts := pkgConsts
 	n := 0
 	var visitList func(list []ast.Stmt)
 	rewrite := func(gs *ast.GoStmt) ast.Stmt {
